@@ -359,8 +359,11 @@ def _sock_scenario(draw, gen: int):
                            max_size=2))
     for t, _n, kp in faults:
         sends.append([t, kp, "idem"])
+    # resets requested from outside the socket (heartbeat style) at arbitrary instants - also while no connection
+    # exists (back-off), so that several reconnection attempts / retry delays overlap
+    resets = sorted(draw(st.lists(st.integers(1, 12 * 16).map(lambda x: x / 16.0), max_size=3)))
     return {"mode": "sock", "gen": gen, "script": script, "sends": sorted(sends, key=lambda s: s[0]), "losses": sorted(losses),
-            "faults": sorted(faults, key=lambda f: f[0]), "close_latency": draw(st.sampled_from([0.0, 0.0, 0.125, 1.0]))}
+            "faults": sorted(faults, key=lambda f: f[0]), "resets": resets, "close_latency": draw(st.sampled_from([0.0, 0.0, 0.125, 1.0]))}
 
 
 def _mk_sock(case):
@@ -384,6 +387,11 @@ def _mk_sock(case):
         tr = rig.net.current
         if tr is not None and tr.alive:
             tr.fail_write(n)
+    def ext_reset():
+        t_ = rig.loop.spawn(rig.sock.reset_connection())     # what the heartbeat does on a timeout
+        t_.add_done_callback(lambda t: t.cancelled() or t.exception())
+    for t in case.get("resets", ()):
+        handles.append(rig.loop.call_at(t, ext_reset))
     for t, n, _kp in case.get("faults", ()):
         handles.append(rig.loop.call_at(t, arm, n))
     for t, kp, pol in case["sends"]:
@@ -404,7 +412,8 @@ def check_sock(case, when, stats: Stats | None):
     try:
         rig.open()
         rig.loop.advance(horizon)
-        instants = sorted({e[0] for e in rig.net.log} | {t for t, *_ in case["sends"]} | {t + 2.0 for t, _ in case["losses"]})
+        instants = sorted({e[0] for e in rig.net.log} | {t for t, *_ in case["sends"]} | {t + 2.0 for t, _ in case["losses"]} |
+                          set(case.get("resets", ())))
         if any(e[1] == "write_fault" for e in rig.net.log):
             full["write_fault"] = True
     finally:
@@ -500,6 +509,11 @@ def _mk_sock_on(rig, case):
         tr = rig.net.current
         if tr is not None and tr.alive:
             tr.fail_write(n)
+    def ext_reset():
+        t_ = rig.loop.spawn(rig.sock.reset_connection())     # what the heartbeat does on a timeout
+        t_.add_done_callback(lambda t: t.cancelled() or t.exception())
+    for t in case.get("resets", ()):
+        handles.append(rig.loop.call_at(t, ext_reset))
     for t, n, _kp in case.get("faults", ()):
         handles.append(rig.loop.call_at(t, arm, n))
     for t, kp, pol in case["sends"]:
